@@ -158,77 +158,73 @@ def _analyses():
 
 # ----- small property-specific rules that reuse the engine -------------------------------------------------
 def _a9_scatter(ctx, world):
-    import ast
+    """decided on the evaluated terms of untake / its mut_add closure (no statement shapes)"""
+    from .analyses.common import loc_of, resolve_callee
+    from .kfun import eval_function, is_call_to
+    from .terms import T, walk
+    from .tutil import atom, cases, expand, unseq
 
-    from .analyses.common import loc_of
-    from .model import norm_text
-
-    ctx.describe("A9.scatter", "inside a SparseObject's mut_add closure accumulation at an index uses ufunc.at (buffered A[idx] += x loses repeated indices); the index list normalisation precedes the scatter")
-    m, fn = world.repo.find_def("autograd.numpy.numpy_vjps", "untake")
-    inner = [s for s in fn.body if isinstance(s, ast.FunctionDef)]
-    ok_at = False
-    bad = None
-    for f in inner:
-        for x in ast.walk(f):
-            if isinstance(x, ast.Call) and isinstance(x.func, ast.Attribute) and x.func.attr == "at":
-                base = x.func.value
-                r = world.repo.resolve_expr(m, base)
-                if r is not None and r.qual == "numpy.add" and len(x.args) == 3 and isinstance(x.args[0], ast.Name) and x.args[0].id == f.args.args[0].arg:
-                    ps = [a.arg for a in fn.args.args]
-                    ok_at = isinstance(x.args[1], ast.Name) and x.args[1].id == ps[1] and isinstance(x.args[2], ast.Name) and x.args[2].id == ps[0]
-            if isinstance(x, ast.AugAssign) and isinstance(x.target, ast.Subscript):
-                bad = x
-            if isinstance(x, ast.Assign) and any(isinstance(t, ast.Subscript) for t in x.targets):
-                bad = x
-    if ok_at and bad is None:
-        ctx.ob("A9.scatter", "untake: onp.add.at(A, idx, x)", True, loc_of(m, fn))
+    ctx.describe("A9.scatter", "inside a SparseObject's mut_add closure accumulation at an index uses ufunc.at (buffered A[idx] += x loses repeated indices); the index that reaches the scatter is the forward index itself or its top-level list -> int64 array normalisation; untake returns SparseObject(vs, mut_add) with the space it was given")
+    ev = world.ev
+    r, sy, m, fn, sc = eval_function(world, "autograd.numpy.numpy_vjps", "untake")
+    loc = loc_of(m, fn)
+    x, idx, vs = sy["#0"], sy["#1"], sy["#2"]
+    r = unseq(expand(ev, r, {"autograd.core.SparseObject"})) if r is not None else None
+    so = [c.leaf for c in cases(r)] if r is not None else []
+    ok_res = bool(so) and all(is_call_to(t, "autograd.core.SparseObject") and len(t.args) == 2 and not t.kw and t.args[0] is vs for t in so)
+    if ok_res:
+        ctx.ob("A9.scatter", "untake returns SparseObject(vs, mut_add)", True, loc)
     else:
-        ctx.fail("A9.scatter", "untake:scatter", "autograd.numpy.numpy_vjps.untake:scatter", loc_of(m, bad or fn), f"untake's accumulator does not scatter with numpy.add.at(A, idx, x){' but with `' + norm_text(bad)[:50] + '`' if bad else ''}", "an integer-array index with repeated entries, x[[0, 0, 1]]: contributions of repeated positions are lost")
-    # the index that reaches the scatter denotes the positions the forward pass read: it is the parameter itself,
-    # or its top-level list -> int64 array normalisation (directly or through a helper whose every return is one
-    # of these two)
-    ps0 = [a.arg for a in fn.args.args]
+        ctx.fail("A9.scatter", "untake:result", "autograd.numpy.numpy_vjps.untake:result", loc, "untake does not return SparseObject(vs, mut_add) with the space it was given", "indexing gradients")
+        return
 
-    def idx_expr_ok(v, pname, mod, depth=0):
-        if isinstance(v, ast.Name) and v.id == pname:
+    def index_ok(t, depth=0):
+        """idx  |  array(idx, dtype=...) / asarray(idx, dtype=...)  |  a conditional between those"""
+        if t is idx:
             return True
-        if isinstance(v, ast.Call) and getattr(v.func, "attr", "") in ("array", "asarray") and v.args and isinstance(v.args[0], ast.Name) and v.args[0].id == pname:
-            return any(k.arg == "dtype" for k in v.keywords)
-        if isinstance(v, ast.IfExp):
-            return idx_expr_ok(v.body, pname, mod, depth) and idx_expr_ok(v.orelse, pname, mod, depth)
-        if isinstance(v, ast.Call) and isinstance(v.func, ast.Name) and depth < 2 and len(v.args) == 1 and isinstance(v.args[0], ast.Name) and v.args[0].id == pname:
-            r = world.repo.resolve(mod, v.func.id)
-            if r is not None and r.kind == "repo" and isinstance(r.node, ast.FunctionDef) and len(r.node.args.args) == 1:
-                hp = r.node.args.args[0].arg
-                rets_ = [x.value for x in ast.walk(r.node) if isinstance(x, ast.Return)]
-                return bool(rets_) and all(idx_expr_ok(x, hp, r.mod, depth + 1) for x in rets_)
+        if t.op == "if" and depth < 4:
+            return index_ok(t.then, depth + 1) and index_ok(t.other, depth + 1)
+        if t.op == "call":
+            rf, pre = resolve_callee(ev, t)
+            if rf is not None and not pre and rf.qual.rsplit(".", 1)[-1] in ("array", "asarray") and rf.qual.startswith(("numpy.", "autograd.numpy")) and t.args and t.args[0] is idx:
+                return "dtype" in t.kw or len(t.args) > 1
         return False
 
-    rebinds = [x for x in ast.walk(fn) if isinstance(x, ast.Assign) and any(isinstance(t, ast.Name) and t.id == ps0[1] for t in x.targets)]
-    bad_rb = [x for x in rebinds if not idx_expr_ok(x.value, ps0[1], m)]
-    if not bad_rb:
-        ctx.ob("A9.scatter", "untake: the scatter index is the forward index (top-level list -> int64 array only)", True, loc_of(m, fn))
+    ok_at, why, bad_index = True, "", None
+    for t in so:
+        clo, pre, prekw = ev.as_closure(t.args[1])
+        if clo is None or pre or prekw:
+            ok_at, why = False, "the accumulator is not an inlinable closure"
+            continue
+        A = T("sym", name="A", role="param")
+        body = expand(ev, ev.apply(clo, [A], {}, []), ())
+        effs = []
+        b = body
+        while b is not None and b.op == "seq":
+            effs += list(b.effects)
+            b = b.value
+        is_at = lambda y: y.op == "call" and ((y.fn.op == "ref" and y.fn.ref.qual == "numpy.add.at") or (y.fn.op == "attr" and y.fn.name == "at" and y.fn.obj.op == "ref" and y.fn.obj.ref.qual == "numpy.add"))
+        ats = [y for e in effs for y in walk(e) if is_at(y)]
+        if b is not A:
+            ok_at, why = False, f"the accumulator returns `{str(b)[:50]}` instead of the buffer it scattered into (an item store / augmented assignment rebinds or buffers)"
+        elif len(ats) != 1 or len(ats[0].args) != 3 or ats[0].kw:
+            ok_at, why = False, "the accumulator does not scatter with exactly one numpy.add.at(A, idx, x)"
+        else:
+            a0, a1, a2 = ats[0].args
+            if a0 is not A or a2 is not x:
+                ok_at, why = False, "numpy.add.at is not applied to (accumulator, index, contribution)"
+            elif not index_ok(a1):
+                bad_index = a1
+    if ok_at:
+        ctx.ob("A9.scatter", "untake: onp.add.at(A, idx, x)", True, loc)
     else:
-        ctx.fail("A9.scatter", "untake:index", "autograd.numpy.numpy_vjps.untake:index-rewritten", loc_of(m, bad_rb[0]), f"untake rewrites the index before scattering: `{norm_text(bad_rb[0])[:70]}` - the backward pass may address other positions than the forward pass read", "an index whose meaning changes under the rewrite (a list of booleans inside a tuple index, nested lists)")
-    # returns SparseObject(vs, mut_add)
-    rets = [s for s in fn.body if isinstance(s, ast.Return)]
-    ps = [a.arg for a in fn.args.args]
-    ok = len(rets) == 1 and isinstance(rets[0].value, ast.Call) and isinstance(rets[0].value.func, ast.Name) and rets[0].value.func.id == "SparseObject" and len(rets[0].value.args) == 2 and isinstance(rets[0].value.args[0], ast.Name) and rets[0].value.args[0].id == ps[2] and inner and isinstance(rets[0].value.args[1], ast.Name) and rets[0].value.args[1].id == inner[0].name
-    if ok:
-        ctx.ob("A9.scatter", "untake returns SparseObject(vs, mut_add)", True, loc_of(m, fn))
+        ctx.fail("A9.scatter", "untake:scatter", "autograd.numpy.numpy_vjps.untake:scatter", loc, f"untake's accumulator does not scatter with numpy.add.at(A, idx, x): {why}", "an integer-array index with repeated entries, x[[0, 0, 1]]: contributions of repeated positions are lost")
+    if bad_index is None:
+        ctx.ob("A9.scatter", "untake: the scatter index is the forward index (top-level list -> int64 array only)", True, loc)
     else:
-        ctx.fail("A9.scatter", "untake:result", "autograd.numpy.numpy_vjps.untake:result", loc_of(m, fn), "untake does not return SparseObject(vs, mut_add) with the space it was given", "indexing gradients")
-    # list-index normalisation precedes the closure definition
-    first_def = min([i for i, s in enumerate(fn.body) if isinstance(s, ast.FunctionDef)] or [0])
-    norm_before = any(isinstance(s, ast.If) and i < first_def for i, s in enumerate(fn.body))
-    ctx.ob("A9.scatter", "untake: list index normalised before the scatter closure is built", bool(norm_before), loc_of(m, fn), nontrivial=False)
-    # container_untake uses vs._subval on A and _mut_add on the selected component
-    m2, fn2 = world.repo.find_def("autograd.builtins", "container_untake")
-    src = ast.unparse(fn2)
-    ok = "_subval" in src and "_mut_add" in src
-    ctx.ob("A9.scatter", "container_untake accumulates with _mut_add into the selected component and rebuilds with _subval", ok, loc_of(m2, fn2))
-    if not ok:
-        ctx.fail("A9.scatter", "container_untake", "autograd.builtins.container_untake", loc_of(m2, fn2), "container_untake no longer accumulates with _mut_add / rebuilds with _subval", "a tuple element used twice")
+        ctx.fail("A9.scatter", "untake:index", "autograd.numpy.numpy_vjps.untake:index-rewritten", loc, f"untake rewrites the index before scattering: `{str(bad_index)[:70]}` - the backward pass may address other positions than the forward pass read", "an index whose meaning changes under the rewrite (a list of booleans inside a tuple index, nested lists)")
+    # container_untake: decided by A14.vspace (km.container_vspaces) on terms; here only that it exists
+    world.repo.find_def("autograd.builtins", "container_untake")
 
 
 def _a2_index_pairing(ctx, world):
@@ -334,16 +330,20 @@ def _flatten_order(ctx, world):
     from .model import norm_text
 
     ctx.describe("A2.flatten", "flatten destructures make_vjp(_flatten)(value) as (unflatten, flat_value); _flatten enumerates dict keys only through sorted(...)")
-    m, fn = world.repo.find_def("autograd.misc.flatten", "flatten")
+    from .kfun import eval_function as _evf, is_call_to as _ict
+    from .tutil import expand as _exp, unseq as _unseq
+
+    r_, sy_, m, fn, sc_ = _evf(world, "autograd.misc.flatten", "flatten")
+    val = sy_["#0"]
+    r_ = _unseq(_exp(world.ev, r_, {"autograd.core.make_vjp", "autograd.misc.flatten._flatten"})) if r_ is not None else None
     ok = False
-    for st in fn.body:
-        if isinstance(st, ast.Assign) and isinstance(st.targets[0], ast.Tuple) and len(st.targets[0].elts) == 2 and isinstance(st.value, ast.Call) and isinstance(st.value.func, ast.Call):
-            a, b = [e.id for e in st.targets[0].elts]
-            inner = st.value.func
-            okc = isinstance(inner.func, ast.Name) and inner.func.id == "make_vjp" and len(inner.args) == 1 and isinstance(inner.args[0], ast.Name) and inner.args[0].id == "_flatten"
-            ret = [s for s in fn.body if isinstance(s, ast.Return)]
-            okr = ret and isinstance(ret[0].value, ast.Tuple) and [e.id for e in ret[0].value.elts] == [b, a]
-            ok = bool(okc and okr)
+    if r_ is not None and r_.op == "tuple" and len(r_.elts) == 2:
+        flat, unfl = r_.elts
+        comp_ = lambda t, i: t.op == "sub" and t.idx.op == "const" and t.idx.value == i
+        if comp_(flat, 1) and comp_(unfl, 0) and flat.obj is unfl.obj:
+            c = flat.obj
+            # make_vjp(_flatten)(value)
+            ok = c.op == "call" and len(c.args) == 1 and c.args[0] is val and c.fn.op == "call" and len(c.fn.args) >= 1 and c.fn.args[0].op == "ref" and c.fn.args[0].ref.qual == "autograd.misc.flatten._flatten" and (c.fn.fn.op in ("ref", "call"))
     if ok:
         ctx.ob("A2.flatten", "flatten: (unflatten, flat) = make_vjp(_flatten)(value); returns (flat, unflatten)", True, loc_of(m, fn))
     else:
@@ -427,9 +427,33 @@ def _vspace_members(ctx, world):
         ctx.ob("A1.members", "ArrayVSpace.__init__: shape/dtype = those of np.asarray(value) on every path; no other field", True, loc_of(ma, fa))
     else:
         ctx.fail("A1.members", "ArrayVSpace.__init__", "autograd.numpy.numpy_vspaces.ArrayVSpace.__init__", loc_of(ma, fa), f"ArrayVSpace.__init__ does not take shape and dtype from np.asarray(value) on every path ({why}): spaces of equal structure compare unequal or values of different dtype share a space", "a NumPy scalar of non-default precision (np.float32(1.0)) or a 0-d array")
-    m, fn = world.repo.find_def("autograd.core", "VSpace.__eq__")
-    src = ast.unparse(fn)
-    ok = "type(self) == type(other)" in src.replace("  ", " ") and "__dict__" in src
+    # VSpace.__eq__(self, other) is True exactly when the types are equal AND the structure dicts are equal:
+    # the evaluated body is valued under the four valuations of the two comparison atoms
+    from .kfun import eval_function as _evf, is_call_to as _ict
+    from .tutil import truth as _truth, unseq as _unseq
+
+    r_, sy_, m, fn, sc_ = _evf(world, "autograd.core", "VSpace.__eq__")
+    a_, b_ = sy_["#0"], sy_["#1"]
+    ty = lambda t, o: _ict(t, "builtins.type") and len(t.args) == 1 and t.args[0] is o
+    dct = lambda t, o: t.op == "attr" and t.name == "__dict__" and t.obj is o
+    is_t = lambda a: a.op == "cmp" and a.opname in ("Eq", "Is") and ((ty(a.l, a_) and ty(a.r, b_)) or (ty(a.l, b_) and ty(a.r, a_)))
+    is_d = lambda a: a.op == "cmp" and a.opname == "Eq" and ((dct(a.l, a_) and dct(a.r, b_)) or (dct(a.l, b_) and dct(a.r, a_)))
+
+    def _bval(t, dec):
+        if t is None:
+            return None
+        if t.op == "if":
+            c = _truth(t.cond, dec)
+            return None if c is None else _bval(t.then if c else t.other, dec)
+        if t.op == "const":
+            return bool(t.value) if isinstance(t.value, bool) else None
+        return _truth(t, dec)
+
+    ok = r_ is not None
+    for tv in (True, False):
+        for dv in (True, False):
+            got = _bval(_unseq(r_), lambda a, tv=tv, dv=dv: tv if is_t(a) else (dv if is_d(a) else None)) if r_ is not None else None
+            ok = ok and got is (tv and dv)
     if ok:
         ctx.ob("A1.members", "VSpace.__eq__ compares type and __dict__", True, loc_of(m, fn))
     else:
